@@ -519,6 +519,20 @@ def compare(interp, op, a, b, st, node):
         if res is not None:
             return vconst(res if name == "in" else not res)
         return vbool(T(name, a.term, b.term), labels)
+    if name == "eq" and any(isinstance(v.term, Term) and v.term.op == "block_labels" for v in (a, b)):
+        # block_labels(L) == c  marks the positions of block c: cuts[c] <= p < cuts[c + 1] with
+        # cuts = cumsum([0] + L)
+        lab, c = (a, b) if isinstance(a.term, Term) and a.term.op == "block_labels" else (b, a)
+        if shape_of(c) == () and shape_of(lab) is not None:
+            L_t = lab.term.args[0]
+            n = shape_of(lab)[0]
+            cuts = V("arr", T("cumsum", T("concat", T("list", const(0)), L_t)), shape=(Dim.unknown("cuts"),), orig=frozenset([FRESH]), labels=lab.labels, loc=fresh_id(), extra="int")
+            pos = V("arr", T("arange", dim_term(n)), shape=(n,), orig=frozenset([FRESH]), labels=frozenset(), loc=fresh_id(), extra="int")
+            lo = subscript(interp, cuts, c, st, node)
+            hi = subscript(interp, cuts, binop(interp, "add", c, vconst(1), st, node), st, node)
+            m1 = compare(interp, ast.GtE(), pos, lo, st, node)
+            m2 = compare(interp, ast.Lt(), pos, hi, st, node)
+            return binop(interp, "bitand", m1, m2, st, node)
     # ordering / equality
     if a.has_const and b.has_const:
         try:
